@@ -260,15 +260,21 @@ func runCall(cs *Case, client *jrpc2.Client, url string, ops []Op, sigs map[int]
 	nt.Gate = func(ex *simeth.Exchange) {
 		sig := exSig(ex, seen)
 		var mine []int
+		src := chain
 		for i := range ops {
+			if ops[i].Name == "lag" { // the node serves every request from a chain that ends at block N
+				src = lagChain(uint64(ops[i].N))
+				out.applied[i] = uint64(ops[i].N) < cs.Start+cs.Limit-1
+				continue
+			}
 			if sigs == nil && ops[i].K == ex.Seq || sigs != nil && sigs[ops[i].K] == sig {
 				mine = append(mine, i)
 			}
 		}
-		if len(mine) == 0 {
+		if len(mine) == 0 && src == chain {
 			return
 		}
-		tree, ok := honest(ex)
+		tree, ok := honestFrom(src, ex)
 		if !ok {
 			return
 		}
@@ -326,11 +332,27 @@ func runCall(cs *Case, client *jrpc2.Client, url string, ops []Op, sigs map[int]
 	return out
 }
 
+var lagChains = map[uint64]*simeth.Chain{}
+
+// lagChain is the honest chain as a node sees it whose head is block h.
+func lagChain(h uint64) *simeth.Chain {
+	if h >= chain.Head().Num {
+		return chain
+	}
+	if lagChains[h] == nil {
+		lagChains[h] = chain.Truncate(h)
+	}
+	return lagChains[h]
+}
+
 // honest computes the uncorrupted response tree of an exchange.
-func honest(ex *simeth.Exchange) (any, bool) {
+func honest(ex *simeth.Exchange) (any, bool) { return honestFrom(chain, ex) }
+
+// honestFrom computes the faithful response tree of an exchange for a node serving chain c.
+func honestFrom(c *simeth.Chain, ex *simeth.Exchange) (any, bool) {
 	var resps []any
-	for _, c := range ex.Calls {
-		m, err := simeth.Answer(chain, c)
+	for _, call := range ex.Calls {
+		m, err := simeth.Answer(c, call)
 		if err != nil {
 			return nil, false
 		}
